@@ -185,6 +185,72 @@ Proof.
 Qed.
 Print Assumptions C13_liftfull_cfg_contains_source.
 
+(* ---- third audit: what "by meta" means, and the content-level statement ----
+   C13_liftfull_skeleton / C13_liftfull_cfg_contains_source hold for ANY [key],
+   a constant one included: they identify a statement BY ITS META and say nothing
+   more than the key distinguishes.  Two statements that share a meta are not told
+   apart - hence not ordered - by them.  Which statements share a meta: every
+   Declaration and Substitution the parser splits ONE declaration list into
+   (`var a = 1, b = a;`: ast_shortcuts::split_declaration_into_single_nodes clones
+   the meta), and the statements of the block the desugarer expands ONE tuple /
+   anonymous-component statement into.  The check evaluates, per definition, whether
+   the body has such statements (flag MD of the model driver; evidence
+   liftfull.statements_sharing_a_meta).
+
+   (1) For a [key] that tells the statement metas of the body apart
+   (Spec.LiftFullSpec.key_injective_on; such keys exist:
+   C13_positional_key_injective), the containment holds and an item of the graph has the
+   id of a source statement exactly when it has its META: the trace / walk of ids IS
+   a trace / walk of metas. *)
+Require Spec.LiftFullSpec Proofs.LiftFullC13.
+
+Theorem C13_liftfull_cfg_contains_source_injective_key : forall key kind params pfile ploc body r,
+  Model.LiftFull.try_lift_impl kind params pfile ploc body = Ok r ->
+  Spec.LiftFullSpec.key_injective_on key body ->
+  (forall ds, exists n0, forall n, n0 <= n ->
+     trace (Model.LiftFull.skel key body) ds
+     `prefix_of` walk n (map (Model.LiftFull.skel_block key) (Model.LiftFull.xc_blocks (Model.LiftFull.l_cfg r))) ds) /\
+  (forall x s,
+     In x (Model.LiftFull.graph_stmts (Model.LiftFull.xc_blocks (Model.LiftFull.l_cfg r))) ->
+     In s (Model.LiftFull.lifted_stmts body) ->
+     key (Model.LiftFull.xstmt_meta x) = key (Model.LiftFull.lift_meta (Model.Ast.stmt_meta s)) ->
+     Model.LiftFull.xstmt_meta x = Model.LiftFull.lift_meta (Model.Ast.stmt_meta s)).
+Proof. exact Proofs.LiftFullC13.liftfull_contains_source_injective_key. Qed.
+Print Assumptions C13_liftfull_cfg_contains_source_injective_key.
+
+(* such a key: the position of the first statement of the body that carries the meta
+   (Model.LiftFullReport.positional_key) - the key the model driver of the check uses for the
+   skeleton cross-check and for the trace / walk oracle on content-carrying definitions, so the
+   hypothesis above holds on every explored case by this theorem *)
+Require Model.LiftFullReport.
+Theorem C13_positional_key_injective : forall body,
+  Spec.LiftFullSpec.key_injective_on (Model.LiftFullReport.positional_key body) body.
+Proof. exact Proofs.LiftFullC13.positional_key_injective_on. Qed.
+Print Assumptions C13_positional_key_injective.
+
+(* (2) The content-level statement, which DOES order statements that share a
+   meta.  [body'] is the body after the renaming pass of ensure_unique_variables: the
+   body with other names (same statement structure, and the statements that become
+   IR statements have, in order, the same kinds and the same metas:
+   Spec.LiftFullSpec.renamed_only).  The IR statements of the graph, read block by
+   block, are in one-to-one, ORDER-PRESERVING correspondence (Forall2) with the
+   statements of body' that are not blocks, each the [image] of its statement: what
+   intermediate_representation/lifting.rs makes of that statement (same kind, lifted
+   names and expressions with their metas, operands in order; for `while` / `if` the
+   branch statement with the lifted condition), up to the false target filled in by
+   complete_basic_block and the type filled in by propagate_types.  This is the
+   statement C04 / C08 use projections of (metas, `<--` statements). *)
+Theorem C13_liftfull_content_provenance : forall kind params pfile ploc body r,
+  Model.LiftFull.try_lift_impl kind params pfile ploc body = Ok r ->
+  exists body',
+    Model.LiftFull.ensure_unique_variables params pfile ploc body = Ok (body', Model.LiftFull.l_reports r) /\
+    Spec.LiftFullSpec.renamed_only body body' /\
+    Forall2 (Spec.LiftFullSpec.image (Model.LiftFull.xc_decls (Model.LiftFull.l_cfg r)))
+            (Model.LiftFull.lifted_stmts body')
+            (Model.LiftFull.graph_stmts (Model.LiftFull.xc_blocks (Model.LiftFull.l_cfg r))).
+Proof. exact Proofs.LiftFullC13.liftfull_content_provenance. Qed.
+Print Assumptions C13_liftfull_content_provenance.
+
 (* non-vacuity: `function f(x) { while (x) { if (x) { return x; } x = 1; } return x; }`
    lifts to six blocks holding five IR statements *)
 From Coq Require Import String.
